@@ -1,4 +1,5 @@
 import ArimModel.Chunk
+import ArimProofs.Lemmas.Chunk
 /-! # C13 — results do not depend on threads, block sizes or completion order
 
 The decomposition logic: `chunk_array` partitions an axis for every block size ≥ 1; the
@@ -132,5 +133,493 @@ theorem untouched (step : C → P → V → V) (s : C → V) (ops : List (C × P
 /-- non-vacuity: 10 items in blocks of 3 → `[0,3) [3,6) [6,9) [9,10)` -/
 example : chunks 10 3 = [(0,3),(3,6),(6,9),(9,10)] := by decide
 example : (minTimesTiles 3 2 3 4).length = 4 := by decide
+
+
+/-! ## A. List-level partition of the real task lists -/
+
+/-- 1-D, list level: exactly one slice of `chunks L b` contains an in-range index -/
+theorem chunks_cover_unique (L b x : Nat) (hb : 0 < b) (hx : x < L) :
+    (chunks L b).countP (inSlice x) = 1 := by
+  unfold chunks
+  rw [List.countP_map]
+  have hcomp : (inSlice x ∘ chunk L b) = fun i => decide (i = owner b x) := by
+    funext i
+    have := chunk_partition L b x i hb hx
+    simp only [Function.comp, inSlice]
+    rw [Bool.eq_iff_iff]
+    simpa using this
+  rw [hcomp, countP_range_eq, if_pos (owner_lt L b x hb hx)]
+
+/-- 1-D: some slice of the list contains `x` iff `x` is in range -/
+theorem chunks_any (L b x : Nat) (hb : 0 < b) :
+    (chunks L b).any (inSlice x) = decide (x < L) := by
+  rw [Bool.eq_iff_iff]
+  simp only [List.any_eq_true, decide_eq_true_eq]
+  constructor
+  · rintro ⟨r, hr, hx⟩
+    obtain ⟨a, _, rfl⟩ := mem_chunks.1 hr
+    have h2 := chunk_snd_le L b a
+    simp only [inSlice, Bool.and_eq_true, decide_eq_true_eq] at hx
+    omega
+  · intro hx
+    refine ⟨chunk L b (owner b x), mem_chunks.2 ⟨_, owner_lt L b x hb hx, rfl⟩, ?_⟩
+    have := (chunk_partition L b x (owner b x) hb hx).2 rfl
+    simpa [inSlice] using this
+
+/-- 1-D: the slices of the list are pairwise disjoint -/
+theorem chunks_pairwise_disjoint (L b : Nat) (hb : 0 < b) :
+    (chunks L b).Pairwise SliceDisjoint := by
+  unfold chunks
+  rw [List.pairwise_map]
+  refine List.pairwise_lt_range.imp ?_
+  intro a a' haa x hx
+  simp only [inSlice, Bool.and_eq_true, decide_eq_true_eq] at hx
+  obtain ⟨⟨h1, h2⟩, h3, h4⟩ := hx
+  have hxL : x < L := Nat.lt_of_lt_of_le h2 (chunk_snd_le L b a)
+  have e1 := (chunk_partition L b x a hb hxL).1 ⟨h1, h2⟩
+  have e2 := (chunk_partition L b x a' hb hxL).1 ⟨h3, h4⟩
+  omega
+
+/-- every slice in the list is non-empty -/
+theorem chunks_nonempty (L b : Nat) (hb : 0 < b) (r : Nat × Nat) (hr : r ∈ chunks L b) :
+    r.1 < r.2 := by
+  obtain ⟨a, ha, rfl⟩ := mem_chunks.1 hr
+  exact chunk_nonempty L b a hb ha
+
+/-! ### grids of chunks (common form of `minTimesTiles` and `distTiles`) -/
+
+theorem gridChunks_cover_unique (n p b i j : Nat) (hb : 0 < b) (hi : i < n) (hj : j < p) :
+    ((grid (chunks n b) (chunks p b)).filter (·.mem i j)).length = 1 := by
+  rw [grid_filter_length, chunks_cover_unique n b i hb hi, chunks_cover_unique p b j hb hj]
+
+theorem gridChunks_inside (n p b : Nat) (t : Tile) (ht : t ∈ grid (chunks n b) (chunks p b))
+    (i j : Nat) (h : t.mem i j = true) : i < n ∧ j < p := by
+  obtain ⟨hr, hc⟩ := mem_grid.1 ht
+  obtain ⟨a, _, ha⟩ := mem_chunks.1 hr
+  obtain ⟨c, _, hc⟩ := mem_chunks.1 hc
+  have h1 := chunk_snd_le n b a
+  have h2 := chunk_snd_le p b c
+  rw [ha] at h1
+  rw [hc] at h2
+  simp only [Tile.mem, Bool.and_eq_true, decide_eq_true_eq] at h
+  omega
+
+theorem gridChunks_nonempty_tiles (n p b : Nat) (hb : 0 < b) (t : Tile)
+    (ht : t ∈ grid (chunks n b) (chunks p b)) : t.r.1 < t.r.2 ∧ t.c.1 < t.c.2 := by
+  obtain ⟨hr, hc⟩ := mem_grid.1 ht
+  exact ⟨chunks_nonempty n b hb _ hr, chunks_nonempty p b hb _ hc⟩
+
+theorem gridChunks_length (n p b : Nat) :
+    (grid (chunks n b) (chunks p b)).length = numChunks n b * numChunks p b := by
+  rw [length_grid, length_chunks, length_chunks]
+
+theorem gridChunks_pairwise_disjoint (n p b : Nat) (hb : 0 < b) :
+    (grid (chunks n b) (chunks p b)).Pairwise TileDisjoint :=
+  grid_pairwise_disjoint _ _ (chunks_pairwise_disjoint n b hb) (chunks_pairwise_disjoint p b hb)
+
+/-- some task of the grid owns `(i,j)` iff `(i,j)` is a cell of the output -/
+theorem gridChunks_any_mem (n p b i j : Nat) (hb : 0 < b) :
+    (grid (chunks n b) (chunks p b)).any (fun t => t.mem i j) = decide (i < n ∧ j < p) := by
+  rw [grid_any_mem, chunks_any n b i hb, chunks_any p b j hb, Bool.decide_and]
+
+/-! ### A.1 – A.4 for `find_minimum_times` -/
+
+/-- **A.1** exactly one task of the submitted list owns output cell `(i,j)` -/
+theorem minTimesTiles_cover_unique (n m p block i j : Nat) (hb : 0 < block) (hm : 0 < m)
+    (hi : i < n) (hj : j < p) :
+    ((minTimesTiles n m p block).filter (·.mem i j)).length = 1 :=
+  gridChunks_cover_unique n p _ i j (block_adj_pos block m hb hm) hi hj
+
+/-- **A.2** no task writes outside the output (no hypothesis on the block size needed) -/
+theorem minTimesTiles_inside (n m p block : Nat) (t : Tile) (ht : t ∈ minTimesTiles n m p block)
+    (i j : Nat) (h : t.mem i j = true) : i < n ∧ j < p :=
+  gridChunks_inside n p _ t ht i j h
+
+/-- **A.3** every submitted task has a non-empty tile. (The hypotheses `0 < n`, `0 < p` of the
+request are not needed: for an empty axis the list is empty.) -/
+theorem minTimesTiles_nonempty_tiles (n m p block : Nat) (hb : 0 < block) (hm : 0 < m)
+    (t : Tile) (ht : t ∈ minTimesTiles n m p block) : t.r.1 < t.r.2 ∧ t.c.1 < t.c.2 :=
+  gridChunks_nonempty_tiles n p _ (block_adj_pos block m hb hm) t ht
+
+/-- **A.3** number of submitted tasks -/
+theorem minTimesTiles_length (n m p block : Nat) :
+    (minTimesTiles n m p block).length
+      = numChunks n (ceilDiv block m) * numChunks p (ceilDiv block m) :=
+  gridChunks_length n p _
+
+/-- **A.4** two tasks at different positions of the list share no cell -/
+theorem minTimesTiles_pairwise_disjoint (n m p block : Nat) (hb : 0 < block) (hm : 0 < m) :
+    (minTimesTiles n m p block).Pairwise TileDisjoint :=
+  gridChunks_pairwise_disjoint n p _ (block_adj_pos block m hb hm)
+
+/-- **A.4**, index form -/
+theorem minTimesTiles_disjoint_index (n m p block : Nat) (hb : 0 < block) (hm : 0 < m)
+    (a c : Nat) (ha : a < (minTimesTiles n m p block).length)
+    (hc : c < (minTimesTiles n m p block).length) (hac : a ≠ c) (i j : Nat) :
+    ¬ (((minTimesTiles n m p block)[a]).mem i j = true ∧
+       ((minTimesTiles n m p block)[c]).mem i j = true) := by
+  have hp := List.pairwise_iff_getElem.1 (minTimesTiles_pairwise_disjoint n m p block hb hm)
+  rcases Nat.lt_or_gt_of_ne hac with h | h
+  · exact hp a c ha hc h i j
+  · intro hh; exact hp c a hc ha h i j ⟨hh.2, hh.1⟩
+
+/-! ### A.1 – A.4 for `distance_pairwise` -/
+
+theorem distTiles_cover_unique (n1 n2 block i j : Nat) (hb : 0 < block)
+    (hi : i < n1) (hj : j < n2) :
+    ((distTiles n1 n2 block).filter (·.mem i j)).length = 1 :=
+  gridChunks_cover_unique n1 n2 _ i j (block_adj_pos block 6 hb (by decide)) hi hj
+
+theorem distTiles_inside (n1 n2 block : Nat) (t : Tile) (ht : t ∈ distTiles n1 n2 block)
+    (i j : Nat) (h : t.mem i j = true) : i < n1 ∧ j < n2 :=
+  gridChunks_inside n1 n2 _ t ht i j h
+
+theorem distTiles_nonempty_tiles (n1 n2 block : Nat) (hb : 0 < block)
+    (t : Tile) (ht : t ∈ distTiles n1 n2 block) : t.r.1 < t.r.2 ∧ t.c.1 < t.c.2 :=
+  gridChunks_nonempty_tiles n1 n2 _ (block_adj_pos block 6 hb (by decide)) t ht
+
+theorem distTiles_length (n1 n2 block : Nat) :
+    (distTiles n1 n2 block).length
+      = numChunks n1 (ceilDiv block 6) * numChunks n2 (ceilDiv block 6) :=
+  gridChunks_length n1 n2 _
+
+theorem distTiles_pairwise_disjoint (n1 n2 block : Nat) (hb : 0 < block) :
+    (distTiles n1 n2 block).Pairwise TileDisjoint :=
+  gridChunks_pairwise_disjoint n1 n2 _ (block_adj_pos block 6 hb (by decide))
+
+/-! ## B. Block-size and order independence of the result
+
+Task `t` runs `tileOps f t`: for each of its cells `(i,j)`, row-major, write `f i j`
+(`overwrite`). A schedule is an `Interleaving` of the task programs (any number of workers, any
+completion order, any element-level merge that keeps each task's own order), or — stronger —
+any permutation of all element operations. -/
+
+/-- **Extension of `schedule_independent` to interleavings**, for an arbitrary `step` (also
+accumulating ones): if task `k` only addresses cells owned by `k`, all interleavings of the
+task programs give the same array. -/
+theorem interleaving_independent (step : C → P → V → V) (s : C → V) (own : C → Nat)
+    (progs : List (List (C × P)))
+    (hown : ∀ k prog, progs[k]? = some prog → ∀ op ∈ prog, own op.1 = k)
+    (l₁ l₂ : List (C × P)) (h₁ : Interleaving progs l₁) (h₂ : Interleaving progs l₂) :
+    runOps step s l₁ = runOps step s l₂ :=
+  schedule_independent step s own (fun t => (progs[t]?).getD []) l₁ l₂
+    (fun t => h₁.filter_eq (fun op => own op.1) hown t)
+    (fun t => h₂.filter_eq (fun op => own op.1) hown t)
+
+/-- result of a grid of chunk tiles under *any permutation of the element operations* -/
+theorem gridChunks_result_ops_perm (f : Nat → Nat → V) (s : Nat × Nat → V) (n p b : Nat)
+    (hb : 0 < b) (ops : List ((Nat × Nat) × V))
+    (h : ops.Perm ((grid (chunks n b) (chunks p b)).flatMap (tileOps f))) (i j : Nat) :
+    runOps overwrite s ops (i, j) = if i < n ∧ j < p then f i j else s (i, j) := by
+  rw [runOps_tiles_perm f s _ ops h, gridChunks_any_mem n p b i j hb]
+  simp only [decide_eq_true_eq]
+
+/-- **B.5 (strongest form)** any permutation of all element operations of all tasks -/
+theorem tiled_result_ops_perm (f : Nat → Nat → V) (s : Nat × Nat → V) (n m p block : Nat)
+    (hb : 0 < block) (hm : 0 < m) (ops : List ((Nat × Nat) × V))
+    (h : ops.Perm ((minTimesTiles n m p block).flatMap (tileOps f))) (i j : Nat) :
+    runOps overwrite s ops (i, j) = if i < n ∧ j < p then f i j else s (i, j) :=
+  gridChunks_result_ops_perm f s n p _ (block_adj_pos block m hb hm) ops h i j
+
+/-- **B.5** any interleaving of the task programs: every output cell holds `f i j`, every
+other cell keeps its value -/
+theorem tiled_result (f : Nat → Nat → V) (s : Nat × Nat → V) (n m p block : Nat)
+    (hb : 0 < block) (hm : 0 < m) (ops : List ((Nat × Nat) × V))
+    (h : Interleaving ((minTimesTiles n m p block).map (tileOps f)) ops) (i j : Nat) :
+    runOps overwrite s ops (i, j) = if i < n ∧ j < p then f i j else s (i, j) := by
+  refine tiled_result_ops_perm f s n m p block hb hm ops ?_ i j
+  rw [List.flatMap_def]
+  exact h.perm
+
+theorem tiled_result_inside (f : Nat → Nat → V) (s : Nat × Nat → V) (n m p block : Nat)
+    (hb : 0 < block) (hm : 0 < m) (ops : List ((Nat × Nat) × V))
+    (h : Interleaving ((minTimesTiles n m p block).map (tileOps f)) ops) (i j : Nat)
+    (hi : i < n) (hj : j < p) : runOps overwrite s ops (i, j) = f i j := by
+  rw [tiled_result f s n m p block hb hm ops h, if_pos ⟨hi, hj⟩]
+
+theorem tiled_result_outside (f : Nat → Nat → V) (s : Nat × Nat → V) (n m p block : Nat)
+    (hb : 0 < block) (hm : 0 < m) (ops : List ((Nat × Nat) × V))
+    (h : Interleaving ((minTimesTiles n m p block).map (tileOps f)) ops) (i j : Nat)
+    (hout : ¬ (i < n ∧ j < p)) : runOps overwrite s ops (i, j) = s (i, j) := by
+  rw [tiled_result f s n m p block hb hm ops h, if_neg hout]
+
+/-- **B.5** the output does not depend on block size, number of workers or completion order -/
+theorem tiled_block_independent (f : Nat → Nat → V) (s : Nat × Nat → V)
+    (n m p block block' : Nat) (hb : 0 < block) (hb' : 0 < block') (hm : 0 < m)
+    (ops ops' : List ((Nat × Nat) × V))
+    (h : Interleaving ((minTimesTiles n m p block).map (tileOps f)) ops)
+    (h' : Interleaving ((minTimesTiles n m p block').map (tileOps f)) ops') :
+    runOps overwrite s ops = runOps overwrite s ops' := by
+  funext c
+  obtain ⟨i, j⟩ := c
+  rw [tiled_result f s n m p block hb hm ops h, tiled_result f s n m p block' hb' hm ops' h']
+
+/-- **B.6** task-level permutations (tasks complete in any order, each runs atomically) -/
+theorem tiled_perm_result (f : Nat → Nat → V) (s : Nat × Nat → V) (n m p block : Nat)
+    (hb : 0 < block) (hm : 0 < m) (σtiles : List Tile)
+    (hσ : σtiles.Perm (minTimesTiles n m p block)) (i j : Nat) :
+    runOps overwrite s (σtiles.flatMap (tileOps f)) (i, j)
+      = if i < n ∧ j < p then f i j else s (i, j) :=
+  tiled_result_ops_perm f s n m p block hb hm _ (hσ.flatMap_right _) i j
+
+theorem tiled_perm_block_independent (f : Nat → Nat → V) (s : Nat × Nat → V)
+    (n m p block block' : Nat) (hb : 0 < block) (hb' : 0 < block') (hm : 0 < m)
+    (σ σ' : List Tile) (hσ : σ.Perm (minTimesTiles n m p block))
+    (hσ' : σ'.Perm (minTimesTiles n m p block')) :
+    runOps overwrite s (σ.flatMap (tileOps f)) = runOps overwrite s (σ'.flatMap (tileOps f)) := by
+  funext c
+  obtain ⟨i, j⟩ := c
+  rw [tiled_perm_result f s n m p block hb hm σ hσ, tiled_perm_result f s n m p block' hb' hm σ' hσ']
+
+/-- instance: the tiled `find_minimum_times` computes the min-plus product with argmin in every
+output cell, for every block size and schedule -/
+theorem minTimes_tiled_result {α : Type} [LT α] [DecidableLT α] [Add α]
+    (t1 t2 : Nat → Nat → α) (s : Nat × Nat → Option (α × Nat)) (n m p block : Nat)
+    (hb : 0 < block) (hm : 0 < m) (ops : List ((Nat × Nat) × Option (α × Nat)))
+    (h : Interleaving ((minTimesTiles n m p block).map (tileOps (minPlus m t1 t2))) ops)
+    (i j : Nat) (hi : i < n) (hj : j < p) :
+    runOps overwrite s ops (i, j) = minPlus m t1 t2 i j :=
+  tiled_result_inside (minPlus m t1 t2) s n m p block hb hm ops h i j hi hj
+
+/-! ### the same for `distance_pairwise` -/
+
+theorem dist_tiled_result_ops_perm (f : Nat → Nat → V) (s : Nat × Nat → V) (n1 n2 block : Nat)
+    (hb : 0 < block) (ops : List ((Nat × Nat) × V))
+    (h : ops.Perm ((distTiles n1 n2 block).flatMap (tileOps f))) (i j : Nat) :
+    runOps overwrite s ops (i, j) = if i < n1 ∧ j < n2 then f i j else s (i, j) :=
+  gridChunks_result_ops_perm f s n1 n2 _ (block_adj_pos block 6 hb (by decide)) ops h i j
+
+theorem dist_tiled_result (f : Nat → Nat → V) (s : Nat × Nat → V) (n1 n2 block : Nat)
+    (hb : 0 < block) (ops : List ((Nat × Nat) × V))
+    (h : Interleaving ((distTiles n1 n2 block).map (tileOps f)) ops) (i j : Nat) :
+    runOps overwrite s ops (i, j) = if i < n1 ∧ j < n2 then f i j else s (i, j) := by
+  refine dist_tiled_result_ops_perm f s n1 n2 block hb ops ?_ i j
+  rw [List.flatMap_def]
+  exact h.perm
+
+theorem dist_tiled_block_independent (f : Nat → Nat → V) (s : Nat × Nat → V)
+    (n1 n2 block block' : Nat) (hb : 0 < block) (hb' : 0 < block')
+    (ops ops' : List ((Nat × Nat) × V))
+    (h : Interleaving ((distTiles n1 n2 block).map (tileOps f)) ops)
+    (h' : Interleaving ((distTiles n1 n2 block').map (tileOps f)) ops') :
+    runOps overwrite s ops = runOps overwrite s ops' := by
+  funext c
+  obtain ⟨i, j⟩ := c
+  rw [dist_tiled_result f s n1 n2 block hb ops h, dist_tiled_result f s n1 n2 block' hb' ops' h']
+
+theorem dist_tiled_perm_result (f : Nat → Nat → V) (s : Nat × Nat → V) (n1 n2 block : Nat)
+    (hb : 0 < block) (σtiles : List Tile) (hσ : σtiles.Perm (distTiles n1 n2 block)) (i j : Nat) :
+    runOps overwrite s (σtiles.flatMap (tileOps f)) (i, j)
+      = if i < n1 ∧ j < n2 then f i j else s (i, j) :=
+  dist_tiled_result_ops_perm f s n1 n2 block hb _ (hσ.flatMap_right _) i j
+
+/-! ## C. Inputs are not modified -/
+
+section Inputs
+variable {In Out : Type} [DecidableEq In] [DecidableEq Out]
+
+/-- memory = inputs ⊕ outputs; operations write only output cells (`Sum.inr`): every input
+cell keeps its value under any schedule and any step function -/
+theorem inputs_untouched (step : Sum In Out → P → V → V) (mem : Sum In Out → V)
+    (ops : List (Sum In Out × P)) (hw : ∀ op ∈ ops, ∃ o, op.1 = Sum.inr o) (a : In) :
+    runOps step mem ops (Sum.inl a) = mem (Sum.inl a) := by
+  apply untouched
+  intro op hop e
+  obtain ⟨o, ho⟩ := hw op hop
+  rw [ho] at e
+  cases e
+
+/-- the same when each operation may additionally *read all current inputs* (`runMem`) -/
+theorem runMem_inputs_untouched (step : (In → V) → Out → P → V → V) (mem : Sum In Out → V)
+    (ops : List (Out × P)) (a : In) :
+    runMem step mem ops (Sum.inl a) = mem (Sum.inl a) := by
+  induction ops generalizing mem with
+  | nil => rfl
+  | cons op rest ih => rw [runMem_cons, ih]; simp
+
+/-- and the outputs of `runMem` are those of `runOps` with the *initial* inputs closed over:
+the `runOps` model (inputs are not cells) loses nothing -/
+theorem runMem_outputs (step : (In → V) → Out → P → V → V) (mem : Sum In Out → V)
+    (ops : List (Out × P)) (o : Out) :
+    runMem step mem ops (Sum.inr o)
+      = runOps (step (fun a => mem (Sum.inl a))) (fun o => mem (Sum.inr o)) ops o := by
+  induction ops generalizing mem with
+  | nil => rfl
+  | cons op rest ih =>
+    rw [runMem_cons, ih, runOps_cons]
+    congr 1
+    funext o'
+    simp
+
+end Inputs
+
+/-! ## D. prange kernels -/
+
+/-- iteration `k` writes `body k` (computed from the shared inputs) into output element `k` -/
+def prangeOps (body : Nat → V) (σ : List Nat) : List (Nat × V) := σ.map (fun k => (k, body k))
+
+theorem prange_ops_perm (body : Nat → V) (s : Nat → V) (N : Nat) (ops : List (Nat × V))
+    (h : ops.Perm (prangeOps body (List.range N))) :
+    runOps overwrite s ops = fun k => if k < N then body k else s k := by
+  funext k
+  have hval : ∀ op ∈ ops, op.2 = body op.1 := by
+    intro op hop
+    have := h.mem_iff.1 hop
+    simp only [prangeOps, List.mem_map] at this
+    obtain ⟨k, _, rfl⟩ := this
+    rfl
+  rw [runOps_overwrite body s ops hval]
+  have hmem : k ∈ ops.map (·.1) ↔ k < N := by
+    rw [(h.map _).mem_iff]
+    simp [prangeOps]
+  by_cases hk : k < N
+  · rw [if_pos hk, if_pos (hmem.2 hk)]
+  · rw [if_neg hk, if_neg (fun h' => hk (hmem.1 h'))]
+
+/-- **D** running the `N` iterations in any order `σ` gives the same array -/
+theorem prange_independent (body : Nat → V) (s : Nat → V) (N : Nat) (σ : List Nat)
+    (h : σ.Perm (List.range N)) :
+    runOps overwrite s (prangeOps body σ) = fun k => if k < N then body k else s k :=
+  prange_ops_perm body s N _ (h.map _)
+
+/-- **D, corollary** `T = parts.length` threads, thread `t` executes the iterations `parts[t]`
+in that order, the threads' writes interleave arbitrarily: the result is the sequential one -/
+theorem prange_threads (body : Nat → V) (s : Nat → V) (N : Nat) (parts : List (List Nat))
+    (hparts : parts.flatten.Perm (List.range N)) (ops : List (Nat × V))
+    (h : Interleaving (parts.map (prangeOps body)) ops) :
+    runOps overwrite s ops = runOps overwrite s (prangeOps body (List.range N)) := by
+  have h1 : ops.Perm (prangeOps body (List.range N)) := by
+    refine h.perm.trans ?_
+    have : (parts.map (prangeOps body)).flatten = prangeOps body parts.flatten := by
+      unfold prangeOps; rw [List.map_flatten]
+    rw [this]
+    exact hparts.map _
+  rw [prange_ops_perm body s N ops h1, prange_independent body s N _ (List.Perm.refl _)]
+
+/-- generic step (e.g. `out[k] += …`): each iteration touches its own element once, so any
+order of the iterations gives `step k (pay k) (s k)` -/
+theorem prange_step_independent (step : Nat → P → V → V) (pay : Nat → P) (s : Nat → V)
+    (N : Nat) (σ : List Nat) (h : σ.Perm (List.range N)) :
+    runOps step s (σ.map (fun k => (k, pay k)))
+      = fun k => if k < N then step k (pay k) (s k) else s k := by
+  funext c
+  rw [runOps_cell]
+  have hnd : σ.Nodup := h.nodup_iff.2 List.nodup_range
+  have key : ∀ l : List Nat, l.Nodup →
+      ((l.map (fun k => (k, pay k))).filter (fun op => op.1 = c)).map (·.2)
+        = if c ∈ l then [pay c] else [] := by
+    intro l hl
+    induction l with
+    | nil => simp
+    | cons a l ih =>
+      have hl' := List.nodup_cons.1 hl
+      rw [List.map_cons, List.filter_cons]
+      by_cases hac : a = c
+      · subst hac
+        simp [ih hl'.2, hl'.1]
+      · have : ¬ c = a := fun e => hac e.symm
+        simp [hac, this, ih hl'.2]
+  rw [key σ hnd]
+  have hmem : c ∈ σ ↔ c < N := by rw [h.mem_iff]; simp
+  by_cases hc : c < N
+  · rw [if_pos (hmem.2 hc), if_pos hc]; rfl
+  · rw [if_neg (fun h' => hc (hmem.1 h')), if_neg hc]; rfl
+
+/-! ### per-cell determinism of the scan -/
+
+section Scan
+variable {α : Type} [LT α] [DecidableLT α]
+
+theorem scanMin_zero (f : Nat → α) : scanMin f 0 = none := rfl
+
+/-- the candidates are consumed in the fixed order `k = 0, 1, …, m-1` -/
+theorem scanMin_succ (f : Nat → α) (m : Nat) :
+    scanMin f (m + 1) = kstep (scanMin f m) m (f m) := by
+  simp [scanMin, List.range_succ]
+
+/-- the result depends only on `f` restricted to `[0, m)` -/
+theorem scanMin_congr (f g : Nat → α) (m : Nat) (h : ∀ k, k < m → f k = g k) :
+    scanMin f m = scanMin g m := by
+  induction m with
+  | zero => rfl
+  | succ m ih =>
+    rw [scanMin_succ, scanMin_succ, ih (fun k hk => h k (by omega)), h m (by omega)]
+
+/-- `out[i,j]` depends only on row `i` of `t1` and column `j` of `t2`, indices `< m` -/
+theorem minPlus_congr [Add α] (m : Nat) (t1 t2 u1 u2 : Nat → Nat → α) (i j : Nat)
+    (h1 : ∀ k, k < m → t1 i k = u1 i k) (h2 : ∀ k, k < m → t2 k j = u2 k j) :
+    minPlus m t1 t2 i j = minPlus m u1 u2 i j := by
+  unfold minPlus
+  apply scanMin_congr
+  intro k hk
+  rw [h1 k hk, h2 k hk]
+
+end Scan
+
+/-! ## E. Non-vacuity -/
+
+-- A.1 with concrete numbers: n=3, m=2, p=3, block=4 (block_adj = 2, four tiles)
+example : minTimesTiles 3 2 3 4
+    = [⟨(0,2),(0,2)⟩, ⟨(0,2),(2,3)⟩, ⟨(2,3),(0,2)⟩, ⟨(2,3),(2,3)⟩] := by decide
+example : ((minTimesTiles 3 2 3 4).filter (·.mem 1 2)).length = 1 := by decide
+example : ((minTimesTiles 3 2 3 4).filter (·.mem 1 2)).length = 1 :=
+  minTimesTiles_cover_unique 3 2 3 4 1 2 (by decide) (by decide) (by decide) (by decide)
+example : ((distTiles 5 4 13).filter (·.mem 4 3)).length = 1 := by decide
+-- an out-of-range cell is owned by no task
+example : ((minTimesTiles 3 2 3 4).filter (·.mem 3 0)).length = 0 := by decide
+-- different block sizes really give different task lists
+example : (minTimesTiles 3 2 3 4).length = 4 ∧ (minTimesTiles 3 2 3 1).length = 9
+    ∧ (minTimesTiles 3 2 3 100).length = 1 := by decide
+
+-- the program of one tile, row-major
+example : tileOps (fun i j => 10 * i + j) ⟨(0,2),(2,3)⟩ = [((0,2),2), ((1,2),12)] := by decide
+
+-- B.5/B.6: reversed task order, concrete evaluation and via the theorem
+example : runOps overwrite (fun _ => 0)
+    ((minTimesTiles 3 2 3 4).reverse.flatMap (tileOps (fun i j => 10 * i + j))) (2, 1) = 21 := by
+  decide
+example : runOps overwrite (fun _ => 0)
+    ((minTimesTiles 3 2 3 4).reverse.flatMap (tileOps (fun i j => 10 * i + j))) (3, 1) = 0 := by
+  decide
+example (f : Nat → Nat → Nat) (s : Nat × Nat → Nat) :
+    runOps overwrite s ((minTimesTiles 3 2 3 4).reverse.flatMap (tileOps f)) (2, 1) = f 2 1 := by
+  rw [tiled_perm_result f s 3 2 3 4 (by decide) (by decide) _ (List.reverse_perm _)]
+  simp
+-- block sizes 4 and 1, forward and reversed task orders: same array
+example (f : Nat → Nat → Nat) (s : Nat × Nat → Nat) :
+    runOps overwrite s ((minTimesTiles 3 2 3 4).reverse.flatMap (tileOps f))
+      = runOps overwrite s ((minTimesTiles 3 2 3 1).flatMap (tileOps f)) :=
+  tiled_perm_block_independent f s 3 2 3 4 1 (by decide) (by decide) (by decide) _ _
+    (List.reverse_perm _) (List.Perm.refl _)
+
+-- the hypothesis `Interleaving` is inhabited: sequential execution …
+example (f : Nat → Nat → Nat) :
+    Interleaving ((minTimesTiles 3 2 3 4).map (tileOps f))
+      ((minTimesTiles 3 2 3 4).flatMap (tileOps f)) := by
+  rw [List.flatMap_def]; exact Interleaving.flatten _
+-- … and a genuine element-level merge of two tasks (task 1 starts first, then alternate)
+example : Interleaving [[(0, 'a'), (1, 'b')], [(2, 'c'), (3, 'd')]]
+    [(2, 'c'), (0, 'a'), (3, 'd'), (1, 'b')] :=
+  .step (k := 1) rfl (.step (k := 0) rfl (.step (k := 1) rfl (.step (k := 0) rfl
+    (.done (by decide)))))
+-- an order-violating sequence is *not* an interleaving
+example : ¬ Interleaving [[(0, 'a'), (1, 'b')]] [(1, 'b'), (0, 'a')] := by
+  intro h
+  have := h.filter_eq (fun _ => 0) (by
+    intro k prog hk x _
+    cases k with
+    | zero => rfl
+    | succ k => simp at hk) 0
+  simp at this
+
+-- D: 4 iterations in the order 2,0,3,1
+example (body : Nat → Nat) (s : Nat → Nat) :
+    runOps overwrite s (prangeOps body [2, 0, 3, 1]) = fun k => if k < 4 then body k else s k :=
+  prange_independent body s 4 [2, 0, 3, 1] (by decide)
+-- D: two threads, thread 0 takes {0,2}, thread 1 takes {3,1}
+example (body : Nat → Nat) (s : Nat → Nat) (ops : List (Nat × Nat))
+    (h : Interleaving ([[0, 2], [3, 1]].map (prangeOps body)) ops) :
+    runOps overwrite s ops = runOps overwrite s (prangeOps body (List.range 4)) :=
+  prange_threads body s 4 [[0, 2], [3, 1]] (by decide) ops h
 
 end Arim.C13
